@@ -124,6 +124,45 @@ CLAIMS = {
          'jsonschema Draft 7 as reference semantics; model faithfulness on documents not sampled.',
          'Lean 4 proof (structural induction over JSON values; schema regenerated from source each run) + differential correspondence + independent oracle'),
 
+ 'C13': ('Lean 4 theorems: abort_closes_writer (WHEREVER the main thread is when Server.run is abandoned — `pre` is an arbitrary prefix of its '
+         'program after the log was opened, which covers every fault kind and every abort point — what it has emitted once the with-statement '
+         'has closed the writer is: open, the records of exactly the k boards already written, close), aborted_log_is_wellformed (the file text is '
+         'then the text JsonLogWriter writes for those k boards), aborted_log_reads_back (one JSON document, read back by the log parser as exactly '
+         'those boards, each whole — by C12), session_records_are_wellformed (records of conforming play are well-formed writer arguments), '
+         'unclosed_log_not_json_old (negative theorem about the code before the repair). Correspondence = FAULT ENUMERATION on the unmodified '
+         'threaded server under the deterministic scheduler: illegal call, unparseable call, call in another seat\'s name, unparseable card, card '
+         'not held, card already played, operator interrupt (KeyboardInterrupt injected into the main thread\'s blocking Queue.get), at a '
+         'stratified sample (quick) / at EVERY abort point of 1-, 2- and 3-board sessions (thorough); the output file is compared with the model '
+         'text (JSON tokens), with the records of the un-aborted session, and read with the real parser.',
+         'Trusted: Lean kernel (3 standard axioms); Python `with` semantics (__exit__ runs on every exception incl. KeyboardInterrupt); primitive '
+         'semantics as C09; the interrupt is modelled as raised by Queue.get (where main blocks). Partial aspect: an interrupt delivered in the '
+         'middle of a single writer call (inside json.dumps / file.write) cannot be exhibited by the model.',
+         'Lean 4 proof (prefix-closure of the main program + C12) + fault enumeration under a deterministic scheduler'),
+ 'C17': ('Lean 4 theorems. JSON: settings_document_is_json, settings_round_trip (any list of boards written by JsonBoardSettingWriter is read back '
+         'as the same boards in order, dda included), settings_validate (published schema, translated each run). PBN: pbn_lines_of_text (an '
+         'admissible file is cut into exactly its rendered lines, via io.StringIO and via open() with universal newlines), first_occurrence_wins '
+         '(parseStream_layout: one game per rendered game, in order, for ANY number of blank lines before / between / after, header lines, extra '
+         'tags, table rows; first occurrence of a tag wins), pbn_import_round_trip(+_universal) (any list of boards rendered as an admissible import '
+         'file — deal from any first seat, tags in any order, optional inner spaces, LF or CRLF, any accepted vulnerability spelling, ids with '
+         'leading / trailing / double spaces — is read as those boards in order), old_reader_defects (negative, kernel-evaluated). The reader '
+         'model implements extract_content (comments), the TAG_PATTERN scanner, the white-space collapse, parse_stream. Correspondence: layouts '
+         'rendered by the Lean spec AND by the harness (texts compared) fed to the real parser in both file modes, plus a text soup with comments / '
+         'stray quotes for the reader model, plus an independent oracle.',
+         'Trusted: Lean kernel (3 standard axioms); hand-written scanners for TAG_PATTERN / REPLACE_PATTERN (differential-tested); text-mode line '
+         'iteration; as C12 for JSON. Values contain no double quote, line end or comment opener.',
+         'Lean 4 proof (induction over lines / games of a layout grammar; JSON by C12) + differential correspondence on spec-rendered files'),
+ 'C18': ('Lean 4 theorems: lines_at_most_255 (write_line: for EVERY string each written piece has <= 255 characters and ends with a line end; the '
+         'pieces reassemble to the string), written_lines_at_most_255 (for EVERY board result, also with over-long values), fifteen_tags_in_order '
+         '(the mandatory tag set with the values given; PBN vulnerability spelling), passed_out_tags (Declarer "", Contract "Pass", Result ""), '
+         'export_round_trip (any sequence of well-formed results is written and read back by the parser as one game per result, in order, each '
+         'exactly the fifteen tags with the written values), consecutive_results_are_separate_games, export_as_settings (deal, dealer, '
+         'vulnerability and board number recovered as a board setting), old_writer_merged_games (negative, kernel-evaluated). Proof: the export '
+         'text IS an admissible layout of C17 (export_is_layout), then C17\'s reader theorem. Correspondence: real PbnWriter chunks, lengths, '
+         'parse_all / parse_board_settings of the written text, write_line around 254/255/256/509/510 characters; independent oracle.',
+         'Trusted: as C17; strftime("%Y.%m.%d") modelled with an unpadded year (glibc). Round trip claimed for tag pairs that fit on one line '
+         '(the format\'s own limit); the line-length claim is unconditional.',
+         'Lean 4 proof (reduction of the export text to an admissible import layout) + differential correspondence'),
+
  'C19': ('Lean 4 theorems about the models of the message builders and parsers of both ends (each parser = its regular expression with re.match '
          'semantics: greedy groups with backtracking, case-insensitive literals): hand_msg_round_trip (any hand, voids, any seat name / Dummy), '
          'bid_msg_round_trip (38 calls x 4 seats, ANY letter case), bid_msg_alert_round_trip (alert suffix stripped, same call), '
